@@ -118,6 +118,11 @@ pub fn bin_dir() -> PathBuf {
     PathBuf::from(std::env::var("VH_BIN_DIR").unwrap_or_else(|_| "/verif/build/repo-target/debug".into()))
 }
 
+/// The binaries built from /repo with `--cfg findutils_verif` (they log event traces when asked to).
+pub fn hooked_bin_dir() -> PathBuf {
+    PathBuf::from(std::env::var("VH_HOOKED_BIN_DIR").unwrap_or_else(|_| "/verif/build/repo-target-verif/debug".into()))
+}
+
 pub fn vrec_path() -> PathBuf {
     let me = std::env::current_exe().expect("current_exe");
     me.parent().unwrap().join("vrec")
